@@ -64,6 +64,10 @@ def build_state(t, cls):
             if who == "ai":
                 t.A.ai_ckpt("S1", [f])
             t.run("stash", "push", "-q")
+        # a commit of another file in between: the pop happens on a HEAD whose working log knows nothing about f
+        g = t.files[1]
+        t.write_both(g, t.A.read_bytes(g).decode() + t.newline() + "\n")
+        t.run("add", "-A"); t.run("commit", "-q", "-m", "unrelated commit between the stashes and the pop")
         return ["stash", "pop", "-q"]
     if cls == "checkout":
         t.run("branch", "other"); t.ai_edit()
